@@ -122,6 +122,19 @@ class Lin:
         """constraints implied by one relation of flow.normalize_cmp (possibly none)"""
         out = []
         op = r[0]
+        if _is(r[1], "discr"):
+            # the discriminant of a value that was built as a known variant on this very path
+            from .flow import VARIANT_DVAL
+            x = r[1][1]
+            while _is(x, "ref") or _is(x, "deref"):
+                x = x[1]
+            d = VARIANT_DVAL.get(x[1][1]) if (_is(x, "agg") and isinstance(x[1], tuple) and x[1] and x[1][0] == "adt") else None
+            if d is not None:
+                v = r[2]
+                c = v[1] if _is(v, "const") else v
+                bad = (op == "truth" and c != d) or (op == "notin" and d in v) or (op == "eq" and isinstance(c, int) and c != d) \
+                    or (op == "ne" and isinstance(c, int) and c == d)
+                return [({}, Fraction(-1))] if bad else []
         if op == "notin" and _is(r[1], "discr") and _call_name(r[1][1]) in ("checked_add", "checked_sub") and r[2] in ((0,), (1,)):
             return self.relation(("truth", r[1], 1 - r[2][0]))           # Option has two variants
         if op == "le":
